@@ -25,12 +25,21 @@
 //!   `DataDomain` values of these two kinds are written as `{"size","rel":[[id index, iv]…],"abs","top"}`
 //!   with `iv = {"w","s","e","st","lo","up","d"}` (signed bounds/hints, decimal strings above 64 bit);
 //!   identifier indices are positions in the `Ord`-sorted identifier pool `id_pool()`.
+//! * `"ms"`: a sequence of `Def`s pushed through the real `Context::update_def` (the
+//!   `forward_interprocedural_fixpoint::Context` implementation of the pointer inference, obtained from a real
+//!   `PointerInference` of a one-block x86-64 project with an empty memory image) starting in a constructed
+//!   state (`State::new` + `set_register`, optional extra memory objects / non-unique objects): the state after
+//!   every `Def` (`{"regs":[[name,size,Data]…],"objs":[[id index, is_unique, [[offset, Data]…]]…]}`), `null`
+//!   where `update_def` returned `None`.
+//! * `"sc"`: one call of the real `Context::specialize_conditional(state, condition, block, is_true)` on a
+//!   constructed register state: the specialised state or `null` ("unsatisfiable").
 use cwe_checker_lib::abstract_domain::{
     AbstractDomain, AbstractIdentifier, AbstractLocation, DataDomain, IntervalDomain, RegisterDomain, SizedDomain,
 };
+use cwe_checker_lib::analysis::forward_interprocedural_fixpoint::Context as _;
 use cwe_checker_lib::analysis::graph::{get_program_cfg, Node};
 use cwe_checker_lib::analysis::interprocedural_fixpoint_generic::NodeValue;
-use cwe_checker_lib::analysis::pointer_inference::{Data, State as PiState};
+use cwe_checker_lib::analysis::pointer_inference::{Data, PointerInference, State as PiState};
 use cwe_checker_lib::intermediate_representation::*;
 use cwe_checker_lib::pipeline::AnalysisResults;
 use std::collections::{BTreeMap, BTreeSet};
@@ -1424,6 +1433,506 @@ fn gen_ev(rng: &mut Rng, out: &mut Out) {
     emit_ev(out, &Value::Array(regs), &json!(globals), &expr, seed);
 }
 
+
+// ------------------------------------------------------------------------------------------
+// PI-lite streams 3 and 4: the real `Context::update_def` ("ms") and `Context::specialize_conditional` ("sc")
+
+/// A real `PointerInference` of a one-block project (x86-64, empty runtime memory image). Only its `Context`
+/// (the `forward_interprocedural_fixpoint::Context` implementation) is used. Leaked: lives for the whole run.
+fn leak_pi() -> &'static PointerInference<'static> {
+    let blocks = vec![blk("f0_b0", vec![], vec![j_return("f0_b0_j0", Expression::Var(tmp("$ret", 8)))])];
+    let project: &'static Project = Box::leak(Box::new(project_x64(program(vec![sub("f0", "fn0", blocks, None)], vec![], vec![tid("f0")]))));
+    let graph = Box::leak(Box::new(get_program_cfg(&project.program)));
+    let ar0 = Box::leak(Box::new(AnalysisResults::new(&[], graph, project)));
+    let (fs, _logs) = ar0.compute_function_signatures();
+    let fs = Box::leak(Box::new(fs));
+    let ar = Box::leak(Box::new(AnalysisResults::new(&[], graph, project).with_function_signatures(Some(fs))));
+    Box::leak(Box::new(ar.compute_pointer_inference(&json!({"allocation_symbols": []}), false)))
+}
+
+/// observed registers of the two streams: (names, size)
+fn ms_pools() -> Vec<(&'static [&'static str], u64)> {
+    vec![(&MS_REGS8[..], 8), (&EV_REGS4[..], 4), (&EV_REGS2[..], 2), (&EV_REGS1[..], 1)]
+}
+const MS_REGS8: [&str; 8] = ["RSP", "RBP", "RDI", "RAX", "RBX", "RCX", "RDX", "RSI"];
+
+fn pool_index(id: &AbstractIdentifier) -> i64 {
+    id_pool().iter().position(|x| x == id).map(|p| p as i64).unwrap_or(-1)
+}
+
+fn stack_id_index() -> usize {
+    let sid = AbstractIdentifier::from_var(Tid::new("f0"), &var("RSP", 8));
+    id_pool().iter().position(|x| *x == sid).unwrap()
+}
+
+/// `{"regs": …, "globals": …, "extra": [[id index, is_unique]…], "stack_unique": bool}` → state
+fn build_state(init: &Value) -> PiState {
+    let gl: BTreeSet<u64> = init["globals"].as_array().unwrap().iter().map(|g| g.as_u64().unwrap()).collect();
+    let sp = var("RSP", 8);
+    let mut st = PiState::new(&sp, Tid::new("f0"), gl);
+    st.set_register(&sp, Data::new_top(ByteSize::new(8)));
+    for e in init["regs"].as_array().unwrap() {
+        let v = var(e[0].as_str().unwrap(), e[1].as_u64().unwrap());
+        st.set_register(&v, dec_data(&e[2]));
+    }
+    let pool = id_pool();
+    if let Some(extra) = init["extra"].as_array() {
+        for e in extra {
+            let id = pool[e[0].as_u64().unwrap() as usize].clone();
+            st.memory.add_abstract_object(id.clone(), ByteSize::new(8), None);
+            if !e[1].as_bool().unwrap() {
+                st.memory.get_object_mut(&id).unwrap().mark_as_not_unique();
+            }
+        }
+    }
+    if init["stack_unique"].as_bool() == Some(false) {
+        let sid = st.stack_id.clone();
+        st.memory.get_object_mut(&sid).unwrap().mark_as_not_unique();
+    }
+    assert_eq!(pool[global_id_index()], st.get_global_mem_id());
+    assert_eq!(pool[stack_id_index()], st.stack_id);
+    st
+}
+
+fn enc_state(st: &PiState) -> Value {
+    let mut regs = Vec::new();
+    for (names, size) in ms_pools() {
+        for n in names {
+            let d = st.get_register(&var(n, size));
+            if !d.is_top() {
+                regs.push(json!([n, size, enc_data(&d)]));
+            }
+        }
+    }
+    let objs: Vec<Value> = st
+        .memory
+        .iter()
+        .map(|(id, obj)| {
+            let cells: Vec<Value> = obj.get_mem_region().iter().map(|(off, d)| json!([off, enc_data(d)])).collect();
+            json!([pool_index(id), obj.is_unique(), cells])
+        })
+        .collect();
+    json!({"regs": regs, "objs": objs})
+}
+
+fn eval_ms(pi: &'static PointerInference<'static>, init: &Value, defs: &[Term<Def>]) -> Value {
+    let (init, defs) = (init.clone(), defs.to_vec());
+    let r = catch(move || {
+        let ctx = pi.get_context();
+        let mut st = build_state(&init);
+        let mut states = Vec::new();
+        for d in defs.iter() {
+            match ctx.update_def(&st, d) {
+                Some(next) => {
+                    states.push(enc_state(&next));
+                    st = next;
+                }
+                None => {
+                    states.push(Value::Null);
+                    break;
+                }
+            }
+        }
+        Value::Array(states)
+    });
+    match r {
+        Ok(v) => v,
+        Err(p) => Value::String(format!("panic:{}", p.replace(' ', "_"))),
+    }
+}
+
+fn def_kind(d: &Def) -> &'static str {
+    match d {
+        Def::Store { .. } => "store",
+        Def::Load { .. } => "load",
+        Def::Assign { .. } => "assign",
+    }
+}
+
+fn emit_ms(out: &mut Out, pi: &'static PointerInference<'static>, init: &Value, defs: &[Term<Def>], seed: u64) {
+    let r = eval_ms(pi, init, defs);
+    if r.is_string() {
+        out.count("ms:panic");
+    } else {
+        for d in defs {
+            out.count(&format!("ms:{}", def_kind(&d.term)));
+        }
+        if r.as_array().map(|a| a.iter().any(|x| x.is_null())).unwrap_or(false) {
+            out.count("ms:cut-by-certain-null");
+        }
+    }
+    let dj: Vec<Value> = defs.iter().map(|d| serde_json::to_value(&d.term).unwrap()).collect();
+    let line = json!({"q": "ms", "init": init, "defs": dj, "seed": seed, "sid": stack_id_index(), "gid": global_id_index(), "impl": r}).to_string();
+    let key = format!("{}|{}", init, Value::Array(dj));
+    // non-trivial: some object holds a cell at the end
+    let nontrivial = r
+        .as_array()
+        .and_then(|a| a.iter().rev().find(|x| !x.is_null()))
+        .map(|s| s["objs"].as_array().unwrap().iter().any(|o| !o[2].as_array().unwrap().is_empty()))
+        .unwrap_or(false);
+    out.case(&line, if nontrivial { Some(&key) } else { None });
+}
+
+fn ptr_data(id_idx: usize, off: i64) -> Value {
+    json!({"size": 8, "rel": [[id_idx, {"w": 64, "s": off, "e": off, "st": 0, "lo": null, "up": null, "d": 0}]], "abs": null, "top": false})
+}
+
+fn abs_data(size: u64, s: i64, e: i64, st: u64) -> Value {
+    json!({"size": size, "rel": [], "abs": {"w": 8 * size, "s": s, "e": e, "st": st, "lo": null, "up": null, "d": 0}, "top": false})
+}
+
+/// small value register contents: constants and short intervals (what stack slots usually hold)
+fn gen_small_abs(rng: &mut Rng, size: u64) -> Value {
+    let bits = 8 * size;
+    if rng.chance(1, 4) {
+        return json!({"size": size, "rel": [], "abs": gen_iv(rng, bits), "top": rng.chance(1, 8)});
+    }
+    let lo = smin_b(bits).max(-100) as i64;
+    let hi = smax_b(bits).min(100) as i64;
+    let s = rng.range(lo, hi);
+    if rng.chance(1, 2) {
+        abs_data(size, s, s, 0)
+    } else {
+        let st = *rng.pick(&[1u64, 1, 2, 4]);
+        let n = rng.below(6) as i64;
+        let e = s + (st as i64) * n;
+        if n == 0 || e > hi {
+            abs_data(size, s, s, 0)
+        } else {
+            abs_data(size, s, e, st)
+        }
+    }
+}
+
+fn gen_ms(rng: &mut Rng, out: &mut Out, pi: &'static PointerInference<'static>) {
+    let sid = stack_id_index();
+    let pool = id_pool();
+    let rdi_idx = pool.iter().position(|x| *x == AbstractIdentifier::from_var(Tid::new("f0"), &var("RDI", 8))).unwrap();
+    let rsi_idx = pool.iter().position(|x| *x == AbstractIdentifier::from_var(Tid::new("f0"), &var("RSI", 8))).unwrap();
+    let globals: Vec<u64> = if rng.chance(1, 4) { vec![0x601000, 0x601008] } else { vec![] };
+    let mut regs: Vec<Value> = Vec::new();
+    let sp_off = 8 * rng.range(-12, 2);
+    regs.push(json!(["RSP", 8, ptr_data(sid, sp_off)]));
+    let has_bp = rng.chance(1, 2);
+    if has_bp {
+        regs.push(json!(["RBP", 8, ptr_data(sid, sp_off + 8 * rng.range(0, 6))]));
+    }
+    let has_rdi = rng.chance(1, 2);
+    if has_rdi {
+        regs.push(json!(["RDI", 8, ptr_data(rdi_idx, 8 * rng.range(-2, 4))]));
+    }
+    // RBX: a stack pointer with an inexact offset, a pointer with two targets, or a value
+    let rbx_kind = rng.below(8);
+    match rbx_kind {
+        0 | 1 => {
+            let s = sp_off + 8 * rng.range(-3, 3);
+            let n = 1 + rng.below(4) as i64;
+            let st = *rng.pick(&[8u64, 8, 4, 1]);
+            regs.push(json!(["RBX", 8, {"size": 8, "rel": [[sid, {"w": 64, "s": s, "e": s + n * st as i64, "st": st, "lo": null, "up": null, "d": 0}]], "abs": null, "top": false}]));
+        }
+        2 => {
+            // two targets (merge-write) or a target plus absolute/top
+            let mut rel = vec![json!([sid, {"w": 64, "s": sp_off, "e": sp_off, "st": 0, "lo": null, "up": null, "d": 0}])];
+            let mut abs = Value::Null;
+            let mut top = false;
+            match rng.below(3) {
+                0 => rel.push(json!([rdi_idx.max(rsi_idx), {"w": 64, "s": 0, "e": 0, "st": 0, "lo": null, "up": null, "d": 0}])),
+                1 => abs = json!({"w": 64, "s": 0x2000, "e": 0x2000, "st": 0, "lo": null, "up": null, "d": 0}),
+                _ => top = true,
+            }
+            rel.sort_by_key(|r| r[0].as_u64().unwrap());
+            regs.push(json!(["RBX", 8, {"size": 8, "rel": rel, "abs": abs, "top": top}]));
+        }
+        3 => regs.push(json!(["RBX", 8, {"size": 8, "rel": [[sid, gen_iv(rng, 64)]], "abs": null, "top": false}])),
+        4 => regs.push(json!(["RBX", 8, gen_data(rng, 8)])),
+        _ => regs.push(json!(["RBX", 8, gen_small_abs(rng, 8)])),
+    }
+    match rng.below(6) {
+        0 if !globals.is_empty() => regs.push(json!(["RCX", 8, abs_data(8, globals[0] as i64, globals[0] as i64, 0)])),
+        1 => regs.push(json!(["RCX", 8, abs_data(8, 0x3000, 0x3000, 0)])),
+        2 => {}
+        3 => regs.push(json!(["RCX", 8, gen_data(rng, 8)])),
+        _ => regs.push(json!(["RCX", 8, gen_small_abs(rng, 8)])),
+    }
+    for n in ["RAX", "RDX"] {
+        if rng.chance(4, 5) {
+            regs.push(json!([n, 8, gen_small_abs(rng, 8)]));
+        }
+    }
+    for (names, size) in [(&EV_REGS4[..], 4u64), (&EV_REGS2[..], 2), (&EV_REGS1[..], 1)] {
+        for n in names {
+            if rng.chance(3, 4) {
+                regs.push(json!([n, size, gen_small_abs(rng, size)]));
+            }
+        }
+    }
+    let mut extra = Vec::new();
+    if has_rdi && rng.chance(1, 2) {
+        extra.push(json!([rdi_idx, rng.chance(3, 4)]));
+    }
+    let init = json!({"regs": regs, "globals": globals, "extra": extra, "stack_unique": !rng.chance(1, 12)});
+
+    // a small set of offsets so that accesses of different widths overlap
+    let offs: Vec<i64> = (0..3).map(|_| rng.range(-6, 3) * 4 + if rng.chance(1, 5) { rng.range(-3, 3) } else { 0 }).collect();
+    let reg_of = |rng: &mut Rng, size: u64| -> &'static str {
+        match size {
+            8 => *rng.pick(&["RAX", "RDX", "RCX", "RSI"]),
+            4 => *rng.pick(&EV_REGS4),
+            2 => *rng.pick(&EV_REGS2),
+            _ => *rng.pick(&EV_REGS1),
+        }
+    };
+    let addr = |rng: &mut Rng| -> Expression {
+        let k = *rng.pick(&offs);
+        let plus = |base: &str, k: i64| {
+            if k == 0 && rng_bit(k) {
+                e_var(base, 8)
+            } else if k < 0 {
+                e_bin(BinOpType::IntSub, e_var(base, 8), e_const((-k) as u64, 8))
+            } else {
+                e_bin(BinOpType::IntAdd, e_var(base, 8), e_const(k as u64, 8))
+            }
+        };
+        match rng.below(20) {
+            0..=9 => plus("RSP", k),
+            10..=12 => plus(if has_bp { "RBP" } else { "RSP" }, k - 8),
+            13 | 14 => e_var("RBX", 8),
+            15 => plus("RBX", k),
+            16 => e_var("RCX", 8),
+            17 => plus("RDI", k),
+            18 => e_const(*rng.pick(&[0x601000u64, 0x3000, 8, 0]), 8),
+            _ => e_bin(BinOpType::IntAdd, e_var("RSP", 8), e_var("RAX", 8)),
+        }
+    };
+    let n_defs = 1 + rng.below(6);
+    let mut defs = Vec::new();
+    for i in 0..n_defs {
+        let size = *rng.pick(&[8u64, 8, 8, 4, 4, 2, 1]);
+        let t = format!("d{}", i);
+        match rng.below(10) {
+            0..=4 => {
+                let value = match rng.below(8) {
+                    0 => {
+                        let bits = 8 * size;
+                        let v = gen_sval(rng, bits) as i64 as u64;
+                        e_const(if bits >= 64 { v } else { v & ((1u64 << bits) - 1) }, size)
+                    }
+                    1 if size == 8 => e_var("RSP", 8),
+                    2 if size == 8 => e_bin(BinOpType::IntAdd, e_var("RSP", 8), e_const(16, 8)),
+                    3 if size == 8 => e_var("RDI", 8),
+                    4 if size < 8 => e_sub(0, size, e_var("RAX", 8)),
+                    _ => e_var(reg_of(rng, size), size),
+                };
+                defs.push(d_store(&t, addr(rng), value));
+            }
+            5..=8 => defs.push(d_load(&t, var(reg_of(rng, size), size), addr(rng))),
+            _ => {
+                let e = match rng.below(3) {
+                    0 => e_bin(BinOpType::IntAdd, e_var("RSP", 8), e_const((8 * rng.range(-3, 3)) as u64, 8)),
+                    1 => e_bin(BinOpType::IntAdd, e_var("RAX", 8), e_const(rng.below(9), 8)),
+                    _ => e_var("RDX", 8),
+                };
+                defs.push(d_assign(&t, var(*rng.pick(&["RAX", "RSI", "RBP", "RSP"]), 8), e));
+            }
+        }
+    }
+    let seed = rng.next() >> 12;
+    emit_ms(out, pi, &init, &defs, seed);
+}
+
+fn rng_bit(k: i64) -> bool {
+    k == 0
+}
+
+fn eval_sc(pi: &'static PointerInference<'static>, init: &Value, cond: &Expression, is_true: bool) -> Value {
+    let (init, cond) = (init.clone(), cond.clone());
+    let r = catch(move || {
+        let ctx = pi.get_context();
+        let st = build_state(&init);
+        let b = blk("f0_b0", vec![], vec![]);
+        match ctx.specialize_conditional(&st, &cond, &b, is_true) {
+            Some(next) => enc_state(&next),
+            None => Value::Null,
+        }
+    });
+    match r {
+        Ok(v) => v,
+        Err(p) => Value::String(format!("panic:{}", p.replace(' ', "_"))),
+    }
+}
+
+fn emit_sc(out: &mut Out, pi: &'static PointerInference<'static>, init: &Value, cond: &Expression, is_true: bool, seed: u64) {
+    let r = eval_sc(pi, init, cond, is_true);
+    if r.is_string() {
+        out.count("sc:panic");
+    } else if r.is_null() {
+        out.count("sc:unsatisfiable");
+    } else {
+        out.count("sc:specialised");
+    }
+    let cj = serde_json::to_value(cond).unwrap();
+    let line = json!({"q": "sc", "init": init, "cond": cj, "is_true": is_true, "seed": seed, "sid": stack_id_index(), "gid": global_id_index(), "impl": r}).to_string();
+    let key = format!("{}|{}|{}", init, cj, is_true);
+    // non-trivial: the state changed (or became unsatisfiable)
+    let before = catch({
+        let init = init.clone();
+        move || enc_state(&build_state(&init))
+    })
+    .unwrap_or(Value::Null);
+    let nontrivial = !r.is_string() && r != before;
+    out.case(&line, if nontrivial { Some(&key) } else { None });
+}
+
+const CMP6: [&str; 6] = ["IntEqual", "IntNotEqual", "IntLess", "IntLessEqual", "IntSLess", "IntSLessEqual"];
+
+fn gen_sc(rng: &mut Rng, out: &mut Out, pi: &'static PointerInference<'static>) {
+    let sid = stack_id_index();
+    let pool = id_pool();
+    let rdi_idx = pool.iter().position(|x| *x == AbstractIdentifier::from_var(Tid::new("f0"), &var("RDI", 8))).unwrap();
+    let globals: Vec<u64> = match rng.below(4) {
+        0 => vec![0x601000, 8],
+        _ => vec![],
+    };
+    let mut regs: Vec<Value> = Vec::new();
+    let sp_off = 8 * rng.range(-12, 2);
+    if rng.chance(5, 6) {
+        regs.push(json!(["RSP", 8, ptr_data(sid, sp_off)]));
+    }
+    if rng.chance(1, 2) {
+        // a second stack pointer: pointer comparisons
+        let d = if rng.chance(1, 2) { ptr_data(sid, sp_off + 8 * rng.range(-1, 1)) } else { json!({"size": 8, "rel": [[sid, gen_iv(rng, 64)]], "abs": null, "top": false}) };
+        regs.push(json!(["RBP", 8, d]));
+    }
+    if rng.chance(1, 2) {
+        regs.push(json!(["RDI", 8, json!({"size": 8, "rel": [[rdi_idx, gen_iv(rng, 64)]], "abs": null, "top": false})]));
+    }
+    let mut values: Vec<(String, u64, Value)> = Vec::new();
+    for (names, size) in [(&MS_REGS8[3..], 8u64), (&EV_REGS4[..], 4), (&EV_REGS2[..], 2), (&EV_REGS1[..], 1)] {
+        for n in names {
+            if rng.chance(3, 4) {
+                let mut d = match rng.below(8) {
+                    0 => gen_data(rng, size),
+                    1 | 2 => json!({"size": size, "rel": [], "abs": gen_iv(rng, 8 * size), "top": rng.chance(1, 6)}),
+                    _ => gen_small_abs(rng, size),
+                };
+                if shape(&d) == "empty" || shape(&d) == "top" {
+                    d = gen_small_abs(rng, size);
+                }
+                if size == 1 && rng.chance(2, 3) {
+                    let (s, e, st) = *rng.pick(&[(0, 0, 0), (1, 1, 0), (0, 1, 1), (0, 1, 1)]);
+                    d = abs_data(1, s, e, st);
+                }
+                values.push((n.to_string(), size, d.clone()));
+                regs.push(json!([n, size, d]));
+            }
+        }
+    }
+    let init = json!({"regs": regs, "globals": globals, "extra": [], "stack_unique": !rng.chance(1, 10)});
+
+    // an operand of `size` bytes: a register, or a constant next to the bounds of the other operand
+    let reg_operand = |rng: &mut Rng, size: u64| -> (Expression, Option<Value>) {
+        let names: Vec<&(String, u64, Value)> = values.iter().filter(|v| v.1 == size).collect();
+        if !names.is_empty() && rng.chance(5, 6) {
+            let v = *rng.pick(&names);
+            (e_var(&v.0, size), Some(v.2.clone()))
+        } else {
+            (ev_reg(rng, size), None)
+        }
+    };
+    let const_near = |rng: &mut Rng, size: u64, other: &Option<Value>| -> Expression {
+        let bits = 8 * size;
+        let (lo, hi) = (smin_b(bits), smax_b(bits));
+        let mut cands: Vec<i128> = vec![0, 1, -1, lo, hi, lo + 1, hi - 1];
+        if let Some(d) = other {
+            if !d["abs"].is_null() {
+                let s = get_i128(&d["abs"]["s"]);
+                let e = get_i128(&d["abs"]["e"]);
+                let st = d["abs"]["st"].as_u64().unwrap_or(0) as i128;
+                for c in [s, e, s - 1, e + 1, s + 1, e - 1, s + st, e - st, (s + e) / 2] {
+                    if c >= lo && c <= hi {
+                        cands.push(c);
+                        cands.push(c);
+                    }
+                }
+            }
+        }
+        let c = if rng.chance(1, 10) { gen_sval(rng, bits) } else { *rng.pick(&cands) };
+        let v = c as i64 as u64;
+        e_const(if bits >= 64 { v } else { v & ((1u64 << bits) - 1) }, size)
+    };
+    let cmp = |rng: &mut Rng| -> Expression {
+        let size = *rng.pick(&[8u64, 8, 8, 4, 2, 1]);
+        let op = op_from_name::<BinOpType>(*rng.pick(&CMP6));
+        let (x, xd) = reg_operand(rng, size);
+        match rng.below(10) {
+            0..=3 => e_bin(op, x, const_near(rng, size, &xd)),
+            4..=6 => e_bin(op, const_near(rng, size, &xd), x),
+            7 => {
+                let (y, _) = reg_operand(rng, size);
+                e_bin(op, x, y)
+            }
+            8 if size == 8 => {
+                // pointer comparisons
+                let p = *rng.pick(&["RSP", "RBP", "RDI"]);
+                let q = *rng.pick(&["RSP", "RBP", "RDI", "RAX"]);
+                e_bin(op, e_var(p, 8), e_var(q, 8))
+            }
+            _ => e_bin(op, x.clone(), x),
+        }
+    };
+    let cond = match rng.below(20) {
+        0..=9 => cmp(rng),
+        10..=12 => e_un(UnOpType::BoolNegate, cmp(rng)),
+        13 => e_un(UnOpType::BoolNegate, e_un(UnOpType::BoolNegate, cmp(rng))),
+        14 | 15 => {
+            let (f, _) = reg_operand(rng, 1);
+            if rng.chance(1, 3) {
+                e_un(UnOpType::BoolNegate, f)
+            } else {
+                f
+            }
+        }
+        16 => {
+            // comparisons of truncated / extended registers
+            let size = *rng.pick(&[4u64, 2, 1]);
+            let op = op_from_name::<BinOpType>(*rng.pick(&CMP6));
+            let x = if rng.chance(1, 2) {
+                e_sub(0, size, e_var(*rng.pick(&["RAX", "RBX", "RCX", "RDX"]), 8))
+            } else {
+                let (y, _) = reg_operand(rng, size);
+                return_cast(rng, y, size)
+            };
+            let s2 = u64::from(x.bytesize());
+            e_bin(op, x, const_near(rng, s2, &None))
+        }
+        17 => {
+            let op = op_from_name::<BinOpType>(*rng.pick(&BIN_BOOL));
+            e_bin(op, cmp(rng), cmp(rng))
+        }
+        18 => {
+            // arithmetic inside the comparison
+            let op = op_from_name::<BinOpType>(*rng.pick(&CMP6));
+            let size = *rng.pick(&[8u64, 4]);
+            let (x, xd) = reg_operand(rng, size);
+            let k = const_near(rng, size, &None);
+            let lhs = e_bin(*rng.pick(&[BinOpType::IntAdd, BinOpType::IntSub]), x, k);
+            e_bin(op, lhs, const_near(rng, size, &xd))
+        }
+        _ => gen_ev_expr(rng, 1, 2, &globals),
+    };
+    let seed = rng.next() >> 12;
+    emit_sc(out, pi, &init, &cond, rng.chance(1, 2), seed);
+}
+
+fn return_cast(rng: &mut Rng, y: Expression, size: u64) -> Expression {
+    let to = *rng.pick(&[8u64, 4]);
+    if to > size {
+        e_cast(*rng.pick(&[CastOpType::IntZExt, CastOpType::IntSExt]), to, y)
+    } else {
+        y
+    }
+}
+
 fn main() {
     quiet_panics();
     let args = Args::parse();
@@ -1440,10 +1949,23 @@ fn main() {
          start / the NULL check fired / the first operand is neither empty nor top / the evaluation result is not top; distinct \
          by program / by input",
     );
+    let pi = leak_pi();
     if let Some(lines) = args.replay_lines() {
         for line in lines {
             let v: Value = serde_json::from_str(&line).expect("replay line");
-            if v["q"] == "dd" {
+            if v["q"] == "ms" {
+                let defs: Vec<Term<Def>> = v["defs"]
+                    .as_array()
+                    .unwrap()
+                    .iter()
+                    .enumerate()
+                    .map(|(i, d)| Term { tid: tid(&format!("d{}", i)), term: serde_json::from_value(d.clone()).expect("def") })
+                    .collect();
+                emit_ms(&mut out, pi, &v["init"], &defs, v["seed"].as_u64().unwrap_or(1));
+            } else if v["q"] == "sc" {
+                let cond: Expression = serde_json::from_value(v["cond"].clone()).expect("condition");
+                emit_sc(&mut out, pi, &v["init"], &cond, v["is_true"].as_bool().unwrap(), v["seed"].as_u64().unwrap_or(1));
+            } else if v["q"] == "dd" {
                 emit_dd(&mut out, &v["op"], &v["a"], &v["b"]);
             } else if v["q"] == "ev" {
                 let expr: Expression = serde_json::from_value(v["expr"].clone()).expect("expression");
@@ -1491,6 +2013,14 @@ fn main() {
     let n_ev = args.num("evals", 2500, 80000);
     for _ in 0..n_ev {
         gen_ev(&mut rng, &mut out);
+    }
+    let n_ms = args.num("memseqs", 2500, 80000);
+    for _ in 0..n_ms {
+        gen_ms(&mut rng, &mut out, pi);
+    }
+    let n_sc = args.num("conds", 4000, 120000);
+    for _ in 0..n_sc {
+        gen_sc(&mut rng, &mut out, pi);
     }
     out.finish();
 }
